@@ -1,8 +1,38 @@
 /-
-  C17GenNext — `bid128_nextup`, `bid128_nextdown`, `bid128_nextafter` of bid128_next.rs, as translated in
-  `DecGen/Code.lean` (`Dec.Gen.Code.bid128_next*`), compute the spec-level `Dec.nextUpD`, `Dec.nextDownD`,
-  `Dec.nextAfterD` of the decoded operand(s) (NaN operands: the quieted canonical NaN, `invalid` for a signalling one),
-  for ALL 128-bit patterns (non-canonical ones included) and every incoming status word, without ever panicking.
+  C17GenNext — `bid128_nextup`, `bid128_nextdown`, `bid128_nextafter` (and `bid128_nexttoward`) of bid128_next.rs, as
+  translated in `DecGen/Code.lean` (`Dec.Gen.Code.bid128_next*`), compute the spec-level `Dec.nextUpD`, `Dec.nextDownD`,
+  `Dec.nextAfterD` of the decoded operand(s) and return the canonical encoding of the result; NaN operands give the
+  quieted canonical NaN (`invalid` for a signalling one); for ALL 128-bit patterns (non-canonical ones included) and
+  every incoming status word, without ever panicking.
+
+  Main theorems (`d = decode (bitsOf x)`):
+    1.  `nextup_front`, `nextdown_front`     NaN / infinity / zero operands (every non-canonical finite pattern is a zero)
+    2.  `digit_count`                        the digit-count block (f64 exponent trick + `BID_NR_DIGITS`): `q1 = ndigits C`
+                                             for every 0 < C < 2^113, no table access out of range
+        (`nrBitsK_spec`: the bit length;  `float_exp`: exponent field of `n as f64` = ⌊log₂ n⌋ + 1023 for 0 < n < 2^53)
+    3.  `nextup_fin`, `nextup_spec`          bid128_nextup x f = .ok (ofBits (encode (upD d)), nanFlags f d)
+    4.  `nextdown_fin`, `nextdown_spec`      bid128_nextdown x f = .ok (ofBits (encode (downD d)), nanFlags f d)
+    5.  `nextafter_spec`, `nexttoward_spec`  bid128_nextafter x y f = .ok (ofBits (encode (afterD dx dy)), afterFlags f dx dy)
+        with the flags of `nextAfterD` (overflow + inexact, underflow + inexact) or-ed into the status word
+    6.  `nextup_accepted`, `nextdown_accepted`, `nextafter_accepted`, `nexttoward_accepted`: the outcome meets the judge's
+        `Dec.expect "next_up" / "next_down" / "next_after" / "next_toward"` for every mode.
+  On the way: `scaleK_spec` (the coefficient is multiplied by 10^min(34−q, E) exactly, every table index in range),
+  `stepK_away`, `stepK_toward` (±1 unit with the 10^34 ↔ 10^33 wrap), `mul_128x64_spec`, `mach_spec`
+  (`__mul_128x64_to_128`, `__mul_64x64_to_128MACH` are exact modulo 2^128).
+
+  Method: the routines are cut into stages written in continuation-passing style that are the text of the routine
+  (`specialK`, `canonK`, `nrBitsK`, `digitsK`, `scaleK`, `stepK`; `naFrontK`, `naCanonK`, `naChooseK`, `naFlags`);
+  `nextup_shape`, `nextdown_shape`, `nextafter_shape` prove that the translated routines ARE these stages chained, so the
+  theorems are about `Dec.Gen.Code.bid128_next*` themselves.
+
+  Nothing was found that deviates from the specification.  Things the code does that are worth knowing:
+    * `bid128_nextafter` compares the operands AS GIVEN (`quiet_equal`, `quiet_greater` on the non-canonicalised patterns) and
+      throws the status words of all four comparison calls away (no NaN reaches them);
+    * for operands that compare equal it returns the CANONICALISED first operand with the sign of the second
+      (so `nextafter (non-canonical zero, −0)` is the canonical −0 of the same exponent), raising nothing;
+    * with two NaN operands it returns the first one quieted (the judge accepts either);
+    * unreachable code: in the digit-count block the test `C1.w[0] >= 2^32` under `C1.w[0] >= 2^53`; in the scaling block,
+      for q1 > 19 the cases `ind > 14` (ind = 34 − q1 ≤ 14 there).
 -/
 import DecGen.Code
 import DecModel.Misc
@@ -13,6 +43,7 @@ import DecProofs.TableFacts.NrDigits
 import DecProofs.Properties.C03GenCompare
 import DecProofs.Properties.C06GenFromInt
 import DecProofs.Properties.C17Adjacent
+import DecProofs.Properties.C12Ops
 import Mathlib.Tactic.SplitIfs
 import Mathlib.Tactic.Ring
 import Mathlib.Tactic.Linarith
@@ -161,8 +192,7 @@ def generalK (away : Bool) (x_sign x_exp : UInt64) (C1 : U128) (pfpsf : UInt32) 
   nrBitsK C1 (fun nb => digitsK C1 nb (fun q1 => scaleK q1 x_exp C1 (fun x_exp C1 =>
     stepK away x_sign x_exp C1 pfpsf)))
 
-set_option maxRecDepth 8000 in
-/-- `bid128_nextup` is the chain of the stages -/
+/-- `bid128_nextup` is the chain of the stages (definitionally: the stages are the text of the routine) -/
 theorem nextup_shape (x : U128) (f : UInt32) : bid128_nextup x f =
     if (x.w1 &&& c_MASK_SPECIAL == c_MASK_SPECIAL) = true then specialK true x f
     else canonK x (fun x_exp C1 =>
@@ -170,10 +200,8 @@ theorem nextup_shape (x : U128) (f : UInt32) : bid128_nextup x f =
       else if (x.w1 == 0x5fffed09bead87c0 && x.w0 == 0x378d8e63ffffffff) = true then .ok (⟨0, 0x7800000000000000⟩, f)
       else if (x.w1 == 0x8000000000000000 && x.w0 == 1) = true then .ok (⟨0, 0x8000000000000000⟩, f)
       else generalK (x.w1 &&& c_MASK_SIGN == 0) (x.w1 &&& c_MASK_SIGN) x_exp C1 f) := by
-  simp only [bid128_nextup, specialK, canonK, generalK, nrBitsK, digitsK, scaleK, stepK, bind, Except.bind, pure, Except.pure,
-    ↓reduceIte, Bool.false_eq_true]
+  rfl
 
-set_option maxRecDepth 8000 in
 /-- `bid128_nextdown` is the chain of the same stages, with the other constants and the other direction -/
 theorem nextdown_shape (x : U128) (f : UInt32) : bid128_nextdown x f =
     if (x.w1 &&& c_MASK_SPECIAL == c_MASK_SPECIAL) = true then specialK false x f
@@ -182,8 +210,7 @@ theorem nextdown_shape (x : U128) (f : UInt32) : bid128_nextdown x f =
       else if (x.w1 == 0xdfffed09bead87c0 && x.w0 == 0x378d8e63ffffffff) = true then .ok (⟨0, 0xf800000000000000⟩, f)
       else if (x.w1 == 0 && x.w0 == 1) = true then .ok (⟨0, 0⟩, f)
       else generalK (x.w1 &&& c_MASK_SIGN != 0) (x.w1 &&& c_MASK_SIGN) x_exp C1 f) := by
-  simp only [bid128_nextdown, specialK, canonK, generalK, nrBitsK, digitsK, scaleK, stepK, bind, Except.bind, pure, Except.pure,
-    ↓reduceIte, Bool.false_eq_true]
+  rfl
 
 /-! ## 2. Front ends: NaN, infinity, zero -/
 
@@ -567,16 +594,26 @@ theorem digitsK_eval {α : Type} (C1 : U128) (nb : UInt64) (k : Int32 → Except
   · have h0' : (Int32.ofInt (toI D) == 0) = false := by rw [beq_eq_false_iff_ne]; exact h0
     simp only [h0', Bool.false_eq_true, if_false, h0]
 
-theorem nr_bounds : (List.range 113).all (fun i =>
-    decide (Dec.Gen.BID_NR_DIGITS.getD (i * 4 + 0) 0 < 64) && decide (Dec.Gen.BID_NR_DIGITS.getD (i * 4 + 1) 0 < 2^64) &&
-    decide (Dec.Gen.BID_NR_DIGITS.getD (i * 4 + 2) 0 < 2^64) && decide (Dec.Gen.BID_NR_DIGITS.getD (i * 4 + 3) 0 < 64)) = true := by
-  decide +kernel
-
+/-- bounds on the entries of `BID_NR_DIGITS`, from its closed form: digit counts ≤ 35, thresholds one word each -/
 theorem nr_bound (i : Nat) (hi : i < 113) :
     Dec.Gen.BID_NR_DIGITS.getD (i * 4 + 0) 0 < 64 ∧ Dec.Gen.BID_NR_DIGITS.getD (i * 4 + 1) 0 < 2^64 ∧
     Dec.Gen.BID_NR_DIGITS.getD (i * 4 + 2) 0 < 2^64 ∧ Dec.Gen.BID_NR_DIGITS.getD (i * 4 + 3) 0 < 64 := by
-  have h := List.all_eq_true.1 nr_bounds i (List.mem_range.2 hi)
-  simpa only [Bool.and_eq_true, decide_eq_true_eq, and_assoc] using h
+  have hp : 0 < 2 ^ i := Nat.pow_pos (by decide)
+  have h2 : 2 ^ i < 10 ^ 35 :=
+    calc 2 ^ i < 2 ^ 113 := Nat.pow_lt_pow_right (by decide) hi
+      _ < 10 ^ 35 := by decide
+  have hd : ndigitsSlow (2 ^ i) ≤ 35 := by
+    rw [← ndigits_eq_slow, ndigits_le_iff hp]; exact h2
+  have h10 : 10 ^ ndigitsSlow (2 ^ i) < 2 ^ 128 :=
+    calc 10 ^ ndigitsSlow (2 ^ i) ≤ 10 ^ 35 := Nat.pow_le_pow_right (by decide) hd
+      _ < 2 ^ 128 := by decide
+  rw [Dec.TableFacts.BID_NR_DIGITS_getD i 0 hi (by decide), Dec.TableFacts.BID_NR_DIGITS_getD i 1 hi (by decide),
+    Dec.TableFacts.BID_NR_DIGITS_getD i 2 hi (by decide), Dec.TableFacts.BID_NR_DIGITS_getD i 3 hi (by decide)]
+  simp only [Dec.TableFacts.nrRow, List.getD_cons_zero, List.getD_cons_succ]
+  generalize ndigitsSlow (2 ^ i) = dl at *
+  generalize 10 ^ dl = T at *
+  refine ⟨?_, by omega, by omega, by omega⟩
+  split <;> omega
 
 theorem i32_of_small (n : Nat) (h : n < 2^31) : (Int32.ofInt (toI (UInt32.ofNat n))).toInt = n := by
   rw [toI_u32, UInt32.toNat_ofNat', Nat.mod_eq_of_lt (by omega), Int32.toInt_ofInt_of_le (by omega) (by omega)]
@@ -626,7 +663,9 @@ theorem digit_count {α : Type} (C1 : U128) (k : Int32 → Except String α) (h0
 example : nrBitsK ⟨999, 0⟩ (fun nb => digitsK ⟨999, 0⟩ nb (fun q => .ok q)) = .ok 3 := by rfl
 example : nrBitsK ⟨1000, 0⟩ (fun nb => digitsK ⟨1000, 0⟩ nb (fun q => .ok q)) = .ok 4 := by rfl
 example : nrBitsK ⟨0x6bc75e2d63100000, 5⟩ (fun nb => digitsK ⟨0x6bc75e2d63100000, 5⟩ nb (fun q => .ok q)) = .ok 21 := by rfl
-example : ndigits (val128 ⟨0x6bc75e2d63100000, 5⟩) = 21 := by decide +kernel
+example : ∃ Q : Int32, Q.toInt = (ndigits (val128 ⟨0x6bc75e2d63100000, 5⟩) : Int) ∧
+    nrBitsK ⟨0x6bc75e2d63100000, 5⟩ (fun nb => digitsK ⟨0x6bc75e2d63100000, 5⟩ nb (fun q => .ok q)) = .ok Q :=
+  digit_count _ _ (by decide) (by decide)
 
 /-! ## 4. Scaling the coefficient -/
 
@@ -1390,11 +1429,10 @@ def naFlags (x xnswp res : U128) (pfpsf_ : UInt32) : Except String (U128 × UInt
     pfpsf := (pfpsf ||| c_StatusFlags_BID_UNDERFLOW_EXCEPTION)
   return (res, pfpsf)
 
-set_option maxRecDepth 8000 in
 /-- `bid128_nextafter` is the chain of the stages -/
 theorem nextafter_shape (x y : U128) (f : UInt32) : bid128_nextafter x y f =
     naFrontK x y f (fun x' y' => naCanonK x' (fun x'' => naChooseK x'' y' x y f (fun res f' => naFlags x'' x res f'))) := by
-  simp only [bid128_nextafter, naFrontK, naCanonK, naChooseK, naFlags, bind, Except.bind, pure, Except.pure]
+  rfl
 
 /-! ### spec-level facts used by `bid128_nextafter` -/
 
@@ -1769,5 +1807,329 @@ theorem naCanon_spec (x : U128) (k : U128 → Except String (U128 × UInt32)) (h
   · have hc : infCanon x = x := by
       unfold infCanon; rw [if_neg (by rw [anyinf_test]; simpa using hI)]
     rw [hc, naCanonK_fin x k (by omega)]
+
+/-! ### `bid128_nextafter`: the theorem -/
+
+/-- the result datum of `next_after`: a NaN operand gives the quieted NaN of the first NaN operand (`nanRule` of
+`DecModel.Ops`), otherwise `nextAfterD` -/
+def afterD (dx dy : Datum) : Datum :=
+  if dx.isNaN then quietNaN dx else if dy.isNaN then quietNaN dy else (nextAfterD dx dy).1
+
+/-- the status word after `next_after`: with a NaN operand, `invalid` (0x01) is or-ed in iff some operand is
+signalling; otherwise the flags of `nextAfterD` (overflow + inexact 0x28, underflow + inexact 0x30, or nothing) -/
+def afterFlags (f : UInt32) (dx dy : Datum) : UInt32 :=
+  if dx.isNaN || dy.isNaN then (if dx.isSNaN || dy.isSNaN then f ||| 1 else f)
+  else f ||| UInt32.ofNat (nextAfterD dx dy).2
+
+theorem setSign_isNaN (s : Bool) (d : Datum) : (d.setSign s).isNaN = d.isNaN := by cases d <;> rfl
+
+theorem nextUpD_isNaN {d : Datum} (h : d.isNaN = false) : (nextUpD d).isNaN = false := by
+  cases d with
+  | fin s c e =>
+    by_cases hc : c = 0
+    · subst hc; rfl
+    · cases s
+      · rw [Dec.C17Adjacent.nextUp_fin_pos c e hc]
+        split
+        · split <;> rfl
+        · rfl
+      · rw [Dec.C17Adjacent.nextUp_fin_neg c e hc]
+        split <;> rfl
+  | inf s => cases s <;> rfl
+  | nan s g p => exact Bool.noConfusion h
+
+theorem nextDownD_isNaN {d : Datum} (h : d.isNaN = false) : (nextDownD d).isNaN = false := by
+  unfold nextDownD Datum.negate
+  rw [setSign_isNaN]
+  exact nextUpD_isNaN (by rw [setSign_isNaN]; exact h)
+
+theorem neg_decodeW (h l : Nat) : (decodeW h l).neg = decide (h / 2^63 % 2 = 1) := by
+  unfold decodeW
+  simp only []
+  split
+  · split <;> rfl
+  · split <;> rfl
+
+/-- the part of a canonical encoding below the sign bit does not depend on the sign -/
+theorem encode_setSign {d : Datum} (h : d.WF) :
+    ∃ m, m < 2^127 ∧ ∀ s, encode (d.setSign s) = (if s then 1 else 0) * 2^127 + m := by
+  cases d with
+  | fin s c e =>
+    obtain ⟨hc, h1, h2⟩ := h
+    simp only [P34, eMin, eMax] at hc h1 h2
+    refine ⟨(e + 6176).toNat * 2^113 + c, by omega, fun s' => ?_⟩
+    cases s' <;> simp only [Datum.setSign, encode, signBit, Bool.false_eq_true, if_true, if_false] <;> omega
+  | inf s =>
+    refine ⟨0x78 * 2^120, by omega, fun s' => ?_⟩
+    cases s' <;> simp only [Datum.setSign, encode, signBit, Bool.false_eq_true, if_true, if_false] <;> omega
+  | nan s g p =>
+    have hp : p < P33 := h
+    simp only [P33] at hp
+    refine ⟨0x7c * 2^120 + (if g then 2^121 else 0) + p, by split <;> omega, fun s' => ?_⟩
+    cases s' <;> simp only [Datum.setSign, encode, signBit, Bool.false_eq_true, if_true, if_false] <;> omega
+
+theorem setSign_self (d : Datum) : d.setSign d.neg = d := by cases d <;> rfl
+
+theorem ofBits_w0 (b : Nat) : (ofBits b).w0.toNat = b % 2^64 := by
+  simp only [ofBits, Dec.C06GenFromInt.ofBits, UInt64.toNat_ofNat']
+  omega
+theorem ofBits_w1 (b : Nat) : (ofBits b).w1.toNat = b / 2^64 % 2^64 := by
+  simp only [ofBits, Dec.C06GenFromInt.ofBits, UInt64.toNat_ofNat']
+
+theorem or_sign (a S : Nat) (ha : a < 2^63) : a ||| S * 2^63 = S * 2^63 + a := by
+  rw [Nat.or_comm, Dec.C06GenFromInt.or_disjoint S a 63 ha]
+
+/-- the canonical encoding of `d` with its sign bit replaced by the sign bit of the word `w` is the canonical encoding
+of `d.setSign` -/
+theorem setSign_bits {d : Datum} (hd : d.WF) (w : UInt64) :
+    (⟨(ofBits (encode d)).w0, (ofBits (encode d)).w1 &&& 0x7fffffffffffffff ||| w &&& 0x8000000000000000⟩ : U128) =
+      ofBits (encode (d.setSign (decide (w.toNat / 2^63 % 2 = 1)))) := by
+  obtain ⟨m, hm, hs⟩ := encode_setSign hd
+  have h1 := hs d.neg
+  rw [setSign_self] at h1
+  rw [hs]
+  apply eq_ofBits
+  simp only [bitsOf, UInt64.toNat_or, abs_toNat, sign_toNat, ofBits_w0, ofBits_w1]
+  rw [or_sign _ _ (by omega), h1]
+  generalize (if d.neg = true then 1 else 0) = S0
+  have hS : w.toNat / 2^63 % 2 = 1 ∨ w.toNat / 2^63 % 2 = 0 := by omega
+  rcases hS with hS | hS
+  · rw [hS, if_pos (by simp)]
+    omega
+  · rw [hS, if_neg (by simp)]
+    omega
+
+theorem infCanon_sign (y : U128) : (infCanon y).w1 &&& 0x8000000000000000 = y.w1 &&& 0x8000000000000000 := by
+  unfold infCanon
+  split
+  · rw [← UInt64.toNat_inj, sign_toNat, sign_toNat]
+    have hX : ((⟨0, y.w1 &&& (c_MASK_SIGN ||| c_MASK_INF)⟩ : U128).w1).toNat = (y.w1.toNat / 2^59 % 32) * 2^59 :=
+      toNat_and_field y.w1 _ 5 59 (by decide)
+    rw [hX]
+    omega
+  · rfl
+
+
+theorem cmpD_ne_none {dx dy : Datum} (hx : dx.isNaN = false) (hy : dy.isNaN = false) : cmpD dx dy ≠ none := by
+  intro h
+  have := cmpD_none dx dy
+  rw [h, hx, hy] at this
+  exact Bool.noConfusion this
+
+/-- the result pattern chosen by the code is the canonical encoding of the model's result -/
+theorem chosen_eq (x y : U128) (hx : (decode (bitsOf x)).isNaN = false) (hy : (decode (bitsOf y)).isNaN = false) :
+    (if (cmpD (decode (bitsOf x)) (decode (bitsOf y)) == some .eq) = true then
+        (⟨(ofBits (encode (decode (bitsOf x)))).w0,
+          (ofBits (encode (decode (bitsOf x)))).w1 &&& 0x7fffffffffffffff ||| (infCanon y).w1 &&& 0x8000000000000000⟩ : U128)
+      else if (cmpD (decode (bitsOf x)) (decode (bitsOf y)) == some .gt) = true then
+        ofBits (encode (nextDownD (decode (bitsOf x))))
+      else ofBits (encode (nextUpD (decode (bitsOf x))))) =
+    ofBits (encode (nextAfterD (decode (bitsOf x)) (decode (bitsOf y))).1) := by
+  have hne := cmpD_ne_none hx hy
+  have hneg : (decode (bitsOf y)).neg = decide (y.w1.toNat / 2^63 % 2 = 1) := by rw [decode_bitsOf, neg_decodeW]
+  unfold nextAfterD
+  rw [infCanon_sign, setSign_bits (decode_WF _), ← hneg]
+  rcases hcm : cmpD (decode (bitsOf x)) (decode (bitsOf y)) with _ | (_ | _ | _)
+  · exact absurd hcm hne
+  · rfl
+  · rfl
+  · rfl
+
+/-- **`bid128_nextafter`, all pairs of 128-bit patterns, every incoming status word.**
+No NaN operand: the result is the canonical encoding of the model's `nextAfterD` result (`x` with the sign of `y` when
+they compare equal — a non-canonical `x` is returned canonical —, else `next_down x` / `next_up x`), and the status
+word is the incoming one with exactly the model's flags or-ed in (overflow + inexact when a finite `x` gives an
+infinity; underflow + inexact when the result differs from `x` and is zero or below `10^−6143` in magnitude).
+A NaN operand: the quieted canonical copy of the first NaN operand, `invalid` iff some operand is signalling.
+The routine never panics. -/
+theorem nextafter_spec (x y : U128) (f : UInt32) :
+    bid128_nextafter x y f =
+      .ok (ofBits (encode (afterD (decode (bitsOf x)) (decode (bitsOf y)))),
+        afterFlags f (decode (bitsOf x)) (decode (bitsOf y))) := by
+  rw [nextafter_shape]
+  unfold afterD afterFlags
+  cases hx : (decode (bitsOf x)).isNaN
+  · cases hy : (decode (bitsOf y)).isNaN
+    · -- no NaN
+      rw [naFront_nonnan x y f _ hx hy, naCanon_spec x _ hx, naChooseK_spec _ _ x y f _ hx, naFlags_spec,
+        chosen_eq x y hx hy]
+      have hw : (nextAfterD (decode (bitsOf x)) (decode (bitsOf y))).1.WF := by
+        unfold nextAfterD
+        rcases cmpD (decode (bitsOf x)) (decode (bitsOf y)) with _ | (_ | _ | _) <;> simp only []
+        · exact setSign_WF _ (decode_WF _)
+        · exact nextUpD_WF (decode_WF _)
+        · exact setSign_WF _ (decode_WF _)
+        · exact nextDownD_WF (decode_WF _)
+      have hn : (nextAfterD (decode (bitsOf x)) (decode (bitsOf y))).1.isNaN = false := by
+        unfold nextAfterD
+        rcases cmpD (decode (bitsOf x)) (decode (bitsOf y)) with _ | (_ | _ | _) <;> simp only []
+        · rw [setSign_isNaN]; exact hx
+        · exact nextUpD_isNaN hx
+        · rw [setSign_isNaN]; exact hx
+        · exact nextDownD_isNaN hx
+      rw [decode_ofBits_encode (decode_WF _), decode_ofBits_encode hw, afterFlagsOf_model f _ _ (decode_WF _) hn hw]
+      simp only [Bool.false_eq_true, if_false, Bool.or_false]
+    · rw [naFront_nany x y f _ hx hy]
+      simp only [Bool.false_eq_true, if_false, if_true, Bool.false_or, Bool.or_true, nanFlags,
+        Dec.C06GenFromInt.isSNaN_isNaN _ hx]
+  · rw [naFront_nanx x y f _ hx]
+    simp only [if_true, Bool.true_or]
+
+/-- no NaN operand: exactly `encode (nextAfterD dx dy).1`, and the model's flags or-ed into the status word -/
+theorem nextafter_nonnan (x y : U128) (f : UInt32)
+    (hx : (decode (bitsOf x)).isNaN = false) (hy : (decode (bitsOf y)).isNaN = false) :
+    bid128_nextafter x y f =
+      .ok (ofBits (encode (nextAfterD (decode (bitsOf x)) (decode (bitsOf y))).1),
+        f ||| UInt32.ofNat (nextAfterD (decode (bitsOf x)) (decode (bitsOf y))).2) := by
+  rw [nextafter_spec]
+  unfold afterD afterFlags
+  rw [hx, hy]
+  simp only [Bool.false_eq_true, if_false, Bool.or_false]
+
+/-- `bid128_nexttoward` is `bid128_nextafter` (the second operand has the same format) -/
+theorem nexttoward_spec (x y : U128) (f : UInt32) :
+    bid128_nexttoward x y f =
+      .ok (ofBits (encode (afterD (decode (bitsOf x)) (decode (bitsOf y)))),
+        afterFlags f (decode (bitsOf x)) (decode (bitsOf y))) := by
+  rw [Dec.C06GenFromInt.nexttoward_eq, nextafter_spec]
+
+
+-- +MAX towards +Inf: +Inf, overflow + inexact (0x28);  +1E−6176 towards 0: +0E−6176, underflow + inexact (0x30)
+example : bid128_nextafter ⟨0x378d8e63ffffffff, 0x5fffed09bead87c0⟩ ⟨0, 0x7800000000000000⟩ 0 =
+    .ok (⟨0, 0x7800000000000000⟩, 0x28) := by rfl
+example : bid128_nextafter ⟨0x378d8e63ffffffff, 0x5fffed09bead87c0⟩ ⟨0, 0x7800000000000000⟩ 0 =
+    .ok (ofBits (encode (.inf false)), 0 ||| UInt32.ofNat (fOverflow ||| fInexact)) := by
+  rw [nextafter_nonnan _ _ _ (by decide +kernel) (by decide +kernel)]; decide +kernel
+example : bid128_nextafter ⟨1, 0⟩ ⟨0, 0x3040000000000000⟩ 0 = .ok (⟨0, 0⟩, 0x30) := by rfl
+example : bid128_nextafter ⟨1, 0⟩ ⟨0, 0x3040000000000000⟩ 0 =
+    .ok (ofBits (encode (.fin false 0 (-6176))), 0 ||| UInt32.ofNat (fUnderflow ||| fInexact)) := by
+  rw [nextafter_nonnan _ _ _ (by decide +kernel) (by decide +kernel)]; decide +kernel
+-- the least normal number 1E−6143 towards 0: the largest subnormal 999999999999999999999999999999999E−6176, underflow + inexact
+example : bid128_nextafter ⟨1, 0x0042000000000000⟩ ⟨0, 0x3040000000000000⟩ 0 =
+    .ok (ofBits (encode (.fin false (10^33 - 1) (-6176))), 0x30) := by
+  rw [nextafter_nonnan _ _ _ (by decide +kernel) (by decide +kernel)]; decide +kernel
+-- 5 and 5.0 compare equal: x itself, no flag;  a non-canonical zero (coefficient field ≥ 10^34) next to −0: the canonical
+-- zero of the same exponent with the sign of y;  1 towards 2 with all flags already raised: nothing changes in the word
+example : bid128_nextafter ⟨5, 0x3040000000000000⟩ ⟨50, 0x303e000000000000⟩ 0 = .ok (⟨5, 0x3040000000000000⟩, 0) := by rfl
+example : bid128_nextafter ⟨0xffffffffffffffff, 0x3041ffffffffffff⟩ ⟨0, 0xb040000000000000⟩ 0 =
+    .ok (ofBits (encode (.fin true 0 0)), 0) := by
+  rw [nextafter_nonnan _ _ _ (by decide +kernel) (by decide +kernel)]; decide +kernel
+example : bid128_nextafter ⟨1, 0x3040000000000000⟩ ⟨2, 0x3040000000000000⟩ 0x3f =
+    .ok (ofBits (encode (.fin false (10^33 + 1) (-33))), 0x3f) := by
+  rw [nextafter_nonnan _ _ _ (by decide +kernel) (by decide +kernel)]; decide +kernel
+-- NaN operands: 1 and sNaN: the quiet NaN, invalid;  qNaN(7) and −sNaN(9): the first operand, invalid
+example : bid128_nextafter ⟨1, 0x3040000000000000⟩ ⟨0, 0x7e00000000000000⟩ 0 = .ok (⟨0, 0x7c00000000000000⟩, 1) := by rfl
+example : bid128_nextafter ⟨7, 0x7c00000000000000⟩ ⟨9, 0xfe00000000000000⟩ 0 = .ok (⟨7, 0x7c00000000000000⟩, 1) := by rfl
+example : bid128_nextafter ⟨7, 0x7c00000000000000⟩ ⟨9, 0xfe00000000000000⟩ 0 =
+    .ok (ofBits (encode (.nan false false 7)), 1) := by
+  rw [nextafter_spec]; decide +kernel
+
+/-! ## 9. In the judge's vocabulary
+
+`Dec.expect op mode args` (DecModel/Ops.lean) is what the judge accepts for a call.  The outcome of the translated
+routines is accepted, for every operand pattern, rounding mode and incoming status word. -/
+
+/-- the outcome `(r, f')` of a call entered with status word `f` meets the expectation `E`: `E` lists alternatives,
+the result is one of them, and exactly the listed flags are or-ed into the status word -/
+def Accepted (E : Expect) (r : U128) (f f' : UInt32) : Prop :=
+  ∃ alts raised, E = .oneOf alts raised ∧ [Val.d (bitsOf r)] ∈ alts ∧ f' = f ||| UInt32.ofNat raised
+
+theorem quietNaN_WF {d : Datum} (h : d.WF) : (quietNaN d).WF := by cases d <;> exact h
+
+theorem nanFlags_eq (f : UInt32) (d : Datum) : nanFlags f d = f ||| UInt32.ofNat (if d.isSNaN then fInvalid else 0) := by
+  unfold nanFlags
+  split
+  · rfl
+  · exact (UInt32.or_zero).symm
+
+theorem expect_next_up (m : Mode) (b : Nat) (ta : Bool) :
+    expect "next_up" m [.d b] ta = un b (fun a => exactly [.d (encode (nextUpD a))] 0) := rfl
+theorem expect_next_down (m : Mode) (b : Nat) (ta : Bool) :
+    expect "next_down" m [.d b] ta = un b (fun a => exactly [.d (encode (nextDownD a))] 0) := rfl
+theorem expect_next_after (m : Mode) (a b : Nat) (ta : Bool) :
+    expect "next_after" m [.d a, .d b] ta = bin a b (fun a b => exactD (nextAfterD a b)) := rfl
+theorem expect_next_toward (m : Mode) (a b : Nat) (ta : Bool) :
+    expect "next_toward" m [.d a, .d b] ta = bin a b (fun a b => exactD (nextAfterD a b)) := rfl
+
+theorem un_no_nan (b : Nat) (k : Datum → Expect) (h : (decode b).isNaN = false) : un b k = k (decode b) := by
+  unfold un
+  rw [Dec.C12.nanRule_no_nan _ _ (by simp [h])]
+
+theorem bin_no_nan (a b : Nat) (k : Datum → Datum → Expect) (ha : (decode a).isNaN = false) (hb : (decode b).isNaN = false) :
+    bin a b k = k (decode a) (decode b) := by
+  unfold bin
+  rw [Dec.C12.nanRule_no_nan _ _ (by simp [ha, hb])]
+
+/-- a one-operand routine that meets `upD`-style specification is accepted -/
+theorem un_accepted (b : Nat) (g : Datum → Datum) (f : UInt32) (hg : ∀ d, d.WF → (g d).WF) :
+    Accepted (un b (fun a => exactly [.d (encode (g a))] 0))
+      (ofBits (encode (if (decode b).isNaN then quietNaN (decode b) else g (decode b)))) f (nanFlags f (decode b)) := by
+  cases hn : (decode b).isNaN
+  · refine ⟨_, _, un_no_nan b _ hn, ?_, ?_⟩
+    · simp only [Bool.false_eq_true, if_false]
+      rw [bitsOf_ofBits_encode (hg _ (decode_WF b))]
+      exact List.mem_singleton.2 rfl
+    · rw [nanFlags_of_not_nan f hn]; exact (UInt32.or_zero).symm
+  · refine ⟨_, _, Dec.C12Ops.un_nan b _ hn, ?_, nanFlags_eq f _⟩
+    simp only [if_true]
+    rw [bitsOf_ofBits_encode (quietNaN_WF (decode_WF b))]
+    exact List.mem_singleton.2 rfl
+
+/-- **`bid128_nextup` is accepted by the judge's expectation for `next_up`** — every pattern, mode, status word -/
+theorem nextup_accepted (m : Mode) (ta : Bool) (x : U128) (f : UInt32) :
+    ∃ r f', bid128_nextup x f = .ok (r, f') ∧ Accepted (expect "next_up" m [.d (bitsOf x)] ta) r f f' :=
+  ⟨_, _, nextup_spec x f, by rw [expect_next_up]; exact un_accepted _ nextUpD f (fun _ h => nextUpD_WF h)⟩
+
+/-- **`bid128_nextdown` is accepted by the judge's expectation for `next_down`** -/
+theorem nextdown_accepted (m : Mode) (ta : Bool) (x : U128) (f : UInt32) :
+    ∃ r f', bid128_nextdown x f = .ok (r, f') ∧ Accepted (expect "next_down" m [.d (bitsOf x)] ta) r f f' :=
+  ⟨_, _, nextdown_spec x f, by rw [expect_next_down]; exact un_accepted _ nextDownD f (fun _ h => nextDownD_WF h)⟩
+
+theorem nextAfterD_WF {dx : Datum} (dy : Datum) (h : dx.WF) : (nextAfterD dx dy).1.WF := by
+  unfold nextAfterD
+  rcases cmpD dx dy with _ | (_ | _ | _) <;> simp only []
+  · exact setSign_WF _ h
+  · exact nextUpD_WF h
+  · exact setSign_WF _ h
+  · exact nextDownD_WF h
+
+theorem after_accepted (a b : Nat) (f : UInt32) :
+    Accepted (bin a b (fun a b => exactD (nextAfterD a b)))
+      (ofBits (encode (afterD (decode a) (decode b)))) f (afterFlags f (decode a) (decode b)) := by
+  unfold afterD afterFlags
+  cases ha : (decode a).isNaN
+  · cases hb : (decode b).isNaN
+    · refine ⟨_, _, bin_no_nan a b _ ha hb, ?_, ?_⟩
+      · simp only [Bool.false_eq_true, if_false, exactD]
+        rw [bitsOf_ofBits_encode (nextAfterD_WF _ (decode_WF a))]
+        exact List.mem_singleton.2 rfl
+      · simp only [Bool.false_eq_true, if_false, Bool.or_false, exactD]
+    · refine ⟨_, _, Dec.C12Ops.bin_nan_right a b _ ha hb, ?_, ?_⟩
+      · simp only [Bool.false_eq_true, if_false, if_true]
+        rw [bitsOf_ofBits_encode (quietNaN_WF (decode_WF b))]
+        exact List.mem_singleton.2 rfl
+      · simp only [Bool.false_or, if_true, Dec.C06GenFromInt.isSNaN_isNaN _ ha]
+        exact nanFlags_eq f _
+  · refine ⟨_, _, Dec.C12Ops.bin_nan a b _ (Or.inl ha), ?_, ?_⟩
+    · simp only [if_true, List.filter, ha, List.map]
+      rw [bitsOf_ofBits_encode (quietNaN_WF (decode_WF a))]
+      exact List.mem_cons_self
+    · simp only [Bool.true_or, if_true, List.any, Bool.or_false]
+      split
+      · rfl
+      · exact (UInt32.or_zero).symm
+
+/-- **`bid128_nextafter` is accepted by the judge's expectation for `next_after`** — every pair of patterns, mode,
+status word (with two NaN operands the judge accepts either one quieted; the code returns the first) -/
+theorem nextafter_accepted (m : Mode) (ta : Bool) (x y : U128) (f : UInt32) :
+    ∃ r f', bid128_nextafter x y f = .ok (r, f') ∧
+      Accepted (expect "next_after" m [.d (bitsOf x), .d (bitsOf y)] ta) r f f' :=
+  ⟨_, _, nextafter_spec x y f, by rw [expect_next_after]; exact after_accepted _ _ f⟩
+
+/-- **`bid128_nexttoward` is accepted by the judge's expectation for `next_toward`** -/
+theorem nexttoward_accepted (m : Mode) (ta : Bool) (x y : U128) (f : UInt32) :
+    ∃ r f', bid128_nexttoward x y f = .ok (r, f') ∧
+      Accepted (expect "next_toward" m [.d (bitsOf x), .d (bitsOf y)] ta) r f f' :=
+  ⟨_, _, nexttoward_spec x y f, by rw [expect_next_toward]; exact after_accepted _ _ f⟩
 
 end Dec.C17GenNext
